@@ -30,11 +30,26 @@ Theorem C02_timing_independent : forall c out es1 s1 es2 s2,
 Proof. exact same_final_statuses. Qed.
 Print Assumptions C02_timing_independent.
 
-(* the run reports an error exactly when a stage ended in Error (a failure that was not allowed) *)
-Theorem C02_error_reported : forall c es s, no_cond_err c -> exec c es s -> pend s = [] ->
-  (gerr s = true <-> exists i, i < length c /\ st s i = Error).
+(* the run reports an error exactly when a stage that does not allow failure ended in Error: its task failed, or its condition
+   could not be evaluated *)
+Theorem C02_error_reported : forall c es s, exec c es s -> pend s = [] ->
+  (gerr s = true <-> exists i, i < length c /\ st s i = Error /\ allow_of c i = false).
 Proof. exact error_iff_some_stage_failed. Qed.
 Print Assumptions C02_error_reported.
+(* when every condition can be evaluated no allowed failure stays in Error, so: an error iff some stage ended in Error *)
+Theorem C02_error_reported_iff_any_error : forall c es s, no_cond_err c -> exec c es s -> pend s = [] ->
+  (gerr s = true <-> exists i, i < length c /\ st s i = Error).
+Proof. exact error_iff_some_stage_in_error. Qed.
+Print Assumptions C02_error_reported_iff_any_error.
+(* the pinned code left g.error unset when a condition could not be evaluated: one stage, condition CErr, not allowed:
+   the pinned transition ends in Error with no error to report *)
+Theorem C02_pinned_refuted_condition_error :
+  let c := [mkStage [] false CErr] in
+  let pinned := mkState (upd (st init) 0 Error) true (gerr init) (log init) (pend init) false false in
+  st pinned 0 = Error /\ allow_of c 0 = false /\ gerr pinned = false /\
+  exists s, step c init (Visit 0) = Some s /\ gerr s = true.
+Proof. cbv zeta. repeat split. eexists. split; reflexivity. Qed.
+Print Assumptions C02_pinned_refuted_condition_error.
 
 (* exactly the transitive dependants are cancelled (through stages that are not skipped by their own condition) *)
 Theorem C02_cancel_exactly_dependants : forall c out, acyclic c -> forall i,
